@@ -21,7 +21,8 @@ from .seams import SimFile, tf_setup
 
 INPUTS = {"img": (6, 6, 2), "seq": (5, 3), "vec": (4,)}
 
-W_CLASSES = [("quantized_bits", 6), ("quantized_po2", 2), ("binary", 2),
+W_CLASSES = [("quantized_bits", 6), ("quantized_po2", 2),
+             ("quantized_relu_po2", 0.7), ("binary", 2),
              ("ternary", 2), ("quantized_linear", 1), ("stochastic_binary", 0.5),
              ("stochastic_ternary", 0.5)]
 A_CLASSES = [("quantized_relu", 5), ("quantized_tanh", 1), ("quantized_sigmoid", 1),
@@ -48,6 +49,8 @@ def gen_wq(rng, rank, allow_none=True, data_independent=False, classes=None):
       kw.pop("scale_axis")
   if cls == "ternary":
     kw.pop("threshold", None)
+  if cls == "quantized_relu_po2":
+    kw.pop("negative_slope", None)
   if cls == "quantized_linear":
     kw.pop("scale_axis", None)
     if kw.get("alpha") not in (None, "auto", "auto_po2"):
